@@ -118,6 +118,15 @@ CLAIMED = {
              note="Trusted: as C01/C03/C09 (the machine composes those models); module-level state of the Python runtime is only observable through the "
                   "tie; uptime excluded as the property allows. No axioms.",
              tech="Coq proof (history independence of the API machine) + extracted-machine differential correspondence on call histories", ref="DESIGN.md section 4 C16"),
+ "C14": dict(text="Coq theorems about the impersonation model, for EVERY random tape: addresses, ports, IP version and TTL = signature TTL - extra_hops; SYN bit "
+                  "kept, ACK bit kept unless ack+/ack-; sequence number zero iff seq-, the base's own when non-zero; per wildcardable field (MSS with the "
+                  "mss*N bounds, window scale vs exws, own/peer timestamp vs ts1-/ts2+ and SYN vs SYN+ACK, window for '*' and literal, IPv4 id in the four "
+                  "df/id cases, payload by class): fixed value overrides, admissible hint kept, inadmissible/missing hint replaced by an admissible value. "
+                  + TIE + " Tie here = the model reproduces bytes(out) of the real impersonate_tcp byte for byte under the recorded random tape; in addition "
+                  "an admissibility predicate written from the property text (not from the code) judges every output field by field.",
+             note="Trusted: as C01/C03; random.* replaced by a recording stub; MSS hints under mtu*N are not judged (they depend on the divisor search of "
+                  "known finding KF-window-search); calls with an explicit uptime argument are excluded from the own-timestamp check. No axioms.",
+             tech="Coq proof (per-field hint theorems over a tape-driven model) + byte-exact tape replay against impersonate_tcp + property-text oracle", ref="DESIGN.md sections 4 C14, 10"),
 }
 def main():
     checks = []
